@@ -1826,6 +1826,10 @@ pub fn run_case(case: &RcCase) -> RcRun {
     }));
     let n = case.threads.len().max(1);
     let sequential = n == 1;
+    // freed blocks keep a poison pattern and are not handed out again within the case: a read
+    // through a stale pointer (by the library or through a handle the model considers valid) sees
+    // neither the old contents nor a new object
+    crate::QUARANTINE.store(true, std::sync::atomic::Ordering::SeqCst);
     shadow::init(shared, sequential);
     if *CURRENT_PROP.lock().unwrap() == "C04" {
         with(|s| s.tolerate_own = true);
